@@ -54,6 +54,46 @@ Lemma read_file_example :
   = [[43; 97; 44; 49; 32; 9]; [9; 43; 97; 44; 49]; [9; 35; 120]; [39; 120; 44; 194; 160]].
 Proof. vm_compute. reflexivity. Qed.
 
+(* ---------------------------------------------------------------- the scanner's token limit *)
+
+Lemma reader_overflow_app : forall data n post, reader_overflow data n = true -> reader_overflow (data ++ post) n = true.
+Proof.
+  induction data as [|b r IH]; intros n post H; [discriminate|].
+  cbn [app reader_overflow] in *. destruct (b =? 10); [apply IH; assumption|].
+  destruct (n + 1 =? max_scan_token_size); [reflexivity | apply IH; assumption].
+Qed.
+
+(* a run of at least (limit - n) bytes without newline overflows a token that already has n bytes *)
+Lemma long_run_overflows : forall line n post, ~ In 10 line -> n < max_scan_token_size ->
+  max_scan_token_size <= n + nlen line -> reader_overflow (line ++ post) n = true.
+Proof.
+  induction line as [|b r IH]; intros n post NI Hn HL.
+  - unfold nlen in HL. simpl in HL. lia.
+  - cbn [app reader_overflow]. destruct (b =? 10) eqn:C; [exfalso; apply NI; left; lia|].
+    destruct (n + 1 =? max_scan_token_size) eqn:E; [reflexivity|].
+    apply IH; [intro X; apply NI; right; exact X | lia | rewrite nlen_cons in HL; lia].
+Qed.
+
+(* whatever precedes it (up to a newline, or nothing) and whatever follows it *)
+Lemma long_line_anywhere : forall pre line post, ~ In 10 line -> max_scan_token_size <= nlen line ->
+  reader_fails (line ++ post) = true /\ reader_fails (pre ++ 10 :: line ++ post) = true.
+Proof.
+  intros pre line post NI HL. unfold reader_fails.
+  assert (L : reader_overflow (line ++ post) 0 = true) by (apply long_run_overflows; [assumption | reflexivity | lia]).
+  split; [exact L|]. generalize 0 at 1. induction pre as [|b r IH]; intro n.
+  - cbn [app reader_overflow N.eqb Pos.eqb]. exact L.
+  - cbn [app reader_overflow]. destruct (b =? 10); [apply IH|].
+    destruct (n + 1 =? max_scan_token_size); [reflexivity | apply IH].
+Qed.
+
+(* a file shorter than the limit is always read to its end *)
+Lemma short_file_fits : forall data n, nlen data + n < max_scan_token_size -> reader_overflow data n = false.
+Proof.
+  induction data as [|b r IH]; intros n H; [reflexivity|].
+  rewrite nlen_cons in H. cbn [reader_overflow]. destruct (b =? 10); [apply IH; lia|].
+  destruct (n + 1 =? max_scan_token_size) eqn:E; [lia | apply IH; lia].
+Qed.
+
 (* ---------------------------------------------------------------- C07 on the bytes of the file *)
 
 Section OnFiles.
@@ -62,24 +102,35 @@ Section OnFiles.
   Variable feature : list kv.
 
   Lemma file_builder_lossless : forall sort, sort_ok sort -> forall min_size nb data stream,
+    reader_fails data = false ->
     1 <= min_size -> (1 <= nb)%nat -> feature <> [] -> accepted bytes conv (read_file data) = true ->
     kvs_ok (file_records conv accum feature data) -> Permutation stream (file_records conv accum feature data) ->
     exists db, compile_file_builder conv sort min_size nb data stream = Ok db /\ store_ok db /\
                forall k, Permutation (vals db k) (vals_of k (file_records conv accum feature data)).
-  Proof. intros sort HS min_size nb data stream. apply (builder_lossless bytes conv accum feature sort HS). Qed.
+  Proof.
+    intros sort HS min_size nb data stream R. unfold compile_file_builder. rewrite R.
+    apply (builder_lossless bytes conv accum feature sort HS).
+  Qed.
 
   Lemma file_batches_lossless : forall sort, sort_ok sort -> forall bs data stream order,
+    reader_fails data = false ->
     accepted bytes conv (read_file data) = true -> kvs_ok (file_records conv accum feature data) ->
     Permutation stream (file_records conv accum feature data) -> Permutation order (batches bs stream) ->
     exists db, compile_file_batches conv sort data order = Ok db /\ store_ok db /\
                forall k, Permutation (vals db k) (vals_of k (file_records conv accum feature data)).
-  Proof. intros sort HS bs data stream order. apply (batches_lossless bytes conv accum feature sort HS). Qed.
+  Proof.
+    intros sort HS bs data stream order R. unfold compile_file_batches. rewrite R.
+    apply (batches_lossless bytes conv accum feature sort HS).
+  Qed.
 
   Lemma file_cdb_lossless : forall data stream,
+    reader_fails data = false ->
     accepted bytes conv (read_file data) = true -> Permutation stream (file_records conv accum feature data) ->
     compile_file_cdb conv data stream = Ok stream /\
     forall k, Permutation (vals_of k stream) (vals_of k (file_records conv accum feature data)).
-  Proof. intros data stream. apply (cdb_lossless bytes conv accum feature). Qed.
+  Proof.
+    intros data stream R. unfold compile_file_cdb. rewrite R. apply (cdb_lossless bytes conv accum feature).
+  Qed.
 
   (* a scanner line whose form after removing the leading blanks is kept and rejected by the codec
      (for instance a record line with a TAB in front) fails every compiler *)
@@ -89,8 +140,20 @@ Section OnFiles.
     (forall sort order, exists e', compile_file_batches conv sort data order = Err e') /\
     (forall stream, exists e', compile_file_cdb conv data stream = Err e').
   Proof.
-    intros data raw e I K C. apply (reject_is_total bytes conv).
-    exists (trim_left_blanks raw), e. split; [|assumption].
-    apply read_file_in. exists raw. auto.
+    intros data raw e I K C.
+    destruct (reject_is_total bytes conv (read_file data)) as [A [B D]].
+    { exists (trim_left_blanks raw), e. split; [|assumption]. apply read_file_in. exists raw. auto. }
+    unfold compile_file_builder, compile_file_batches, compile_file_cdb.
+    destruct (reader_fails data); repeat split; intros; eauto.
+  Qed.
+
+  (* the scanner gave up (a line of 65536 bytes or more): every compiler fails, under every setting *)
+  Lemma file_reader_error_is_total : forall data, reader_fails data = true ->
+    (forall sort min_size nb stream, compile_file_builder conv sort min_size nb data stream = Err E_READER) /\
+    (forall sort order, compile_file_batches conv sort data order = Err E_READER) /\
+    (forall stream, compile_file_cdb conv data stream = Err E_READER).
+  Proof.
+    intros data R. unfold compile_file_builder, compile_file_batches, compile_file_cdb. rewrite R.
+    repeat split; reflexivity.
   Qed.
 End OnFiles.
